@@ -796,7 +796,7 @@ impl Scenario for ArtefactMedium {
                 3 => {
                     if !cbor_heads.is_empty() && rng.chance(1, 8) {
                         let (pos, _) = *rng.pick(&cbor_heads);
-                        json!({"f": "cbor_nest", "pos": pos, "n": if rng.chance(1, 3) { rng.range(1000, big) } else { rng.range(1, 300) }})
+                        json!({"f": "cbor_nest", "pos": pos, "n": if rng.chance(1, 3) { let _ = big; rng.range(1000, 200_000) } else { rng.range(1, 300) }})
                     } else if !cbor_heads.is_empty() && rng.chance(3, 4) {
                         // replace one CBOR head by another head (any major type) that declares an extreme length
                         let (pos, hl) = *rng.pick(&cbor_heads);
